@@ -3,4 +3,3 @@ CONSTANTS
   Alphabet = {}
   MaxLen = 0
   CloseLens = {}
-INVARIANT NoMismatch
